@@ -38,7 +38,7 @@ func (c *compositeCtl) Stores() []vs.InformerSpec {
 }
 
 func (c *compositeCtl) SyncInfo(parent vs.Obj) vs.Obj {
-	out := vs.Obj{"sel": vs.SelectorInfo(nil), "selOK": false, "marker": ""}
+	out := vs.Obj{"sel": vs.SelectorInfo(nil), "selOK": false, "marker": "", "fin": c.pc.finalizer.Name}
 	if parent == nil {
 		return out
 	}
